@@ -58,7 +58,8 @@ TranslateFails ==
 
 \* C10: "assuming the method returns double" is logged exactly when an undeclared method is called
 WarnFails == IF Case.translate.outcome = "ok" /\ Case.translate.checkwarn
-                /\ (Case.translate.nwarn > 0) # UndeclaredUse(Q, <<>>, Sig)
+                /\ \/ (Case.translate.nwarn > 0 /\ ~UndeclaredUse(Q, <<>>, Sig))          \* warned about a declared method
+                   \/ (Case.translate.nwarn = 0 /\ LiveUndeclared(Q, <<>>, Sig, TRUE))    \* silent about a live undeclared one
              THEN {"WarnsIffUndeclared"} ELSE {}
 
 CompileFails == IF Case.compile.ok THEN {} ELSE {"Compiles"}
